@@ -27,8 +27,7 @@ Qed.
 
 Lemma Forall_remove_w (P : worker -> Prop) p i : Forall P p -> Forall P (remove_w p i).
 Proof.
-  intros Hp. induction Hp as [|w r Hw Hr IH]; cbn [remove_w]; [constructor|].
-  destruct (w_id w =? i); [assumption|constructor; assumption].
+  intros Hp. unfold remove_w. rewrite Forall_forall in *. intros w Hw. apply filter_In in Hw. apply Hp, Hw.
 Qed.
 
 Lemma find_w_In p i w : find_w p i = Some w -> In w p /\ w_id w = i.
@@ -523,4 +522,244 @@ Proof.
   { unfold s. eapply state_after_QI; [exact Hd|]. first [apply init_QI | eapply init_QI; exact Hd]. }
   destruct HQ as [H1 H2].
   split; [exact H1|]. intros Hn w Hw. rewrite Forall_forall in H2. apply (H2 w Hw Hn).
+Qed.
+
+(* ------------------------------------------------------------------ *)
+(* C15_resize_converges                                                 *)
+
+Lemma find_w_id p i w : find_w p i = Some w -> w_id w = i.
+Proof. intros H. apply find_w_In in H. apply H. Qed.
+
+Lemma find_upd_w p x i :
+  find_w (upd_w p x) i =
+  if w_id x =? i then (match find_w p i with Some _ => Some x | None => None end) else find_w p i.
+Proof.
+  induction p as [|w r IH]; cbn [upd_w find_w].
+  - destruct (w_id x =? i); reflexivity.
+  - destruct (N.eqb_spec (w_id w) (w_id x)) as [E|E]; cbn [find_w].
+    + destruct (N.eqb_spec (w_id x) i) as [E2|E2].
+      * rewrite E, E2, N.eqb_refl. reflexivity.
+      * rewrite E. destruct (N.eqb_spec (w_id x) i); [contradiction|reflexivity].
+    + destruct (N.eqb_spec (w_id w) i) as [E3|E3].
+      * destruct (N.eqb_spec (w_id x) i) as [E2|E2]; [congruence|reflexivity].
+      * exact IH.
+Qed.
+
+Lemma find_remove_w p i j : find_w (remove_w p i) j = if i =? j then None else find_w p j.
+Proof.
+  unfold remove_w. induction p as [|w r IH]; cbn [filter find_w].
+  - destruct (i =? j); reflexivity.
+  - destruct (N.eqb_spec (w_id w) i) as [E|E]; cbn [negb find_w].
+    + rewrite IH. destruct (N.eqb_spec i j) as [E2|E2]; [reflexivity|].
+      destruct (N.eqb_spec (w_id w) j); [congruence|reflexivity].
+    + destruct (N.eqb_spec (w_id w) j) as [E3|E3].
+      * destruct (N.eqb_spec i j); [congruence|reflexivity].
+      * exact IH.
+Qed.
+
+Lemma find_app_new p x i :
+  find_w (p ++ [x]) i = match find_w p i with Some w => Some w | None => if w_id x =? i then Some x else None end.
+Proof.
+  induction p as [|w r IH]; cbn [app find_w]; [reflexivity|].
+  destruct (w_id w =? i); [reflexivity|exact IH].
+Qed.
+
+(* same slots, same draining flags, busy workers stay busy *)
+Definition ple (p p' : list worker) : Prop :=
+  forall i, match find_w p i, find_w p' i with
+            | Some w, Some w' => w_drain w' = w_drain w /\ (w_working w = true -> w_working w' = true)
+            | None, None => True
+            | _, _ => False
+            end.
+
+Lemma ple_refl p : ple p p.
+Proof. intros i. destruct (find_w p i); [split; [reflexivity|exact (fun x => x)]|exact I]. Qed.
+
+Lemma ple_trans p q r : ple p q -> ple q r -> ple p r.
+Proof.
+  intros H1 H2 i. specialize (H1 i). specialize (H2 i).
+  destruct (find_w p i), (find_w q i), (find_w r i); try contradiction; try exact I.
+  destruct H1 as [A B], H2 as [C D]. split; [congruence|auto].
+Qed.
+
+Lemma ple_upd p i w x :
+  find_w p i = Some w -> w_id x = i -> w_drain x = w_drain w ->
+  (w_working w = true -> w_working x = true) -> ple p (upd_w p x).
+Proof.
+  intros Hf Hid Hd Hw j. rewrite find_upd_w. rewrite Hid.
+  destruct (N.eqb_spec i j) as [E|E].
+  - subst j. rewrite Hf. split; assumption.
+  - destruct (find_w p j); [split; [reflexivity|exact (fun y => y)]|exact I].
+Qed.
+
+Lemma enqueue_job_shape c w j :
+  let w' := fst (enqueue_job c w j) in
+  w_id w' = w_id w /\ w_drain w' = w_drain w /\ (w_working w = true -> w_working w' = true).
+Proof.
+  cbn zeta. unfold enqueue_job.
+  destruct (match wsettings c with Some (l, Newest) => negb (w_available w) && (l <=? len (w_q w)) | _ => false end);
+    [cbn [fst]; repeat split; exact (fun x => x)|].
+  destruct (w_cur w) as [cj|] eqn:Ec.
+  - destruct (wsettings c) as [[l [|]]|]; cbn [fst set_q w_id w_drain]; repeat split;
+      intros _; unfold w_working, w_available; cbn [w_cur set_q]; rewrite Ec; reflexivity.
+  - destruct (w_q w) as [|older rest]; cbn [dispatch_job set_q fst w_id w_drain]; repeat split;
+      intros _; reflexivity.
+Qed.
+
+Definition frame (s s' : fstate) : Prop :=
+  f_size s' = f_size s /\ f_drain s' = f_drain s /\ f_stopped s' = f_stopped s /\ ple (f_pool s) (f_pool s').
+
+Lemma frame_refl s : frame s s.
+Proof. repeat split. apply ple_refl. Qed.
+
+Ltac fr := unfold frame; cbn; repeat split; try reflexivity; try apply ple_refl.
+
+Lemma frame_trans a b d : frame a b -> frame b d -> frame a d.
+Proof.
+  intros (A1 & A2 & A3 & A4) (B1 & B2 & B3 & B4). repeat split; try congruence. eapply ple_trans; eassumption.
+Qed.
+
+Lemma route_inner_frame c s j hint s' r e : route_inner c s j hint = (s', r, e) -> frame s s'.
+Proof.
+  unfold route_inner. destruct (choose c (f_rs s) j (f_size s) hint (f_pool s)) as [rs' tgt].
+  destruct tgt as [i|]; [|intros H; inversion H; subst; fr].
+  cbn [set_rs f_pool]. destruct (find_w (f_pool s) i) as [w|] eqn:Ef;
+    [|intros H; inversion H; subst; fr].
+  pose proof (enqueue_job_shape c w j) as (A & B & C). destruct (enqueue_job c w j) as [w' ev]. cbn [fst] in *.
+  intros H; inversion H; subst. repeat split. cbn [set_pool set_rs f_pool].
+  eapply ple_upd; try eassumption. rewrite A. eapply find_w_id; eassumption.
+Qed.
+
+Lemma route_frame c s j hint s' r e : route c s j hint = (s', r, e) -> frame s s'.
+Proof.
+  unfold route. destruct (c_rate c) as [[rc ini]|]; [|apply route_inner_frame].
+  destruct (f_bucket s) as [b|]; [|apply route_inner_frame].
+  destruct (check rc b (f_now s)) as [b' ok]. destruct ok.
+  - destruct (route_inner c (set_bucket s (Some b')) j hint) as [[s2 r2] e2] eqn:E.
+    apply route_inner_frame in E. intros H.
+    destruct r2; inversion H; subst; exact E.
+  - intros H; inversion H; subst.
+    destruct hint as [h|]; [destruct (avail_in _ h)|]; fr.
+Qed.
+
+Lemma try_route_frame c fuel : forall s hint s' e, try_route c fuel s hint = (s', e) -> frame s s'.
+Proof.
+  induction fuel as [|f IH]; intros s hint s' e; cbn [try_route].
+  { intros H; inversion H; subst. fr. }
+  destruct (pop_front (c_queue c) (f_q s)) as [[j q']|]; [|intros H; inversion H; subst; fr].
+  destruct (choose c (f_rs s) j (f_size s) hint (f_pool s)) as [rs' tgt].
+  destruct tgt as [i|]; [|intros H; inversion H; subst; fr].
+  destruct (route c (set_fq (set_rs s rs') q') j (Some i)) as [[s2 r] e0] eqn:Er.
+  apply route_frame in Er. intros H. destruct r.
+  - inversion H; subst. exact Er.
+  - inversion H; subst. exact Er.
+  - destruct (try_route c f s2 hint) as [s3 e'] eqn:Et. inversion H; subst.
+    eapply frame_trans; [exact Er|]. eapply IH; eassumption.
+Qed.
+
+Lemma mark_available_frame c s i : frame s (mark_available c s i).
+Proof. unfold mark_available. destruct (avail_in (f_pool s) i); fr. Qed.
+
+Lemma dispatch_frame c s j s' e : dispatch c s j = (s', e) -> frame s s'.
+Proof.
+  unfold dispatch. destruct (f_drain s); try (intros H; inversion H; subst; fr).
+  destruct (route c s j None) as [[s1 r] e1] eqn:Er. apply route_frame in Er. intros H.
+  destruct r; inversion H; subst; try exact Er.
+  destruct (maybe_enqueue c (f_q s1) j) as [q' e']. inversion H; subst. exact Er.
+Qed.
+
+Lemma route_queued_frame c n : forall s s' e, route_queued c s n = (s', e) -> frame s s'.
+Proof.
+  induction n as [|k IH]; intros s s' e; cbn [route_queued].
+  { intros H; inversion H; subst. fr. }
+  destruct (f_q s); [intros H; inversion H; subst; fr|].
+  unfold try_route_next. destruct (try_route c _ s None) as [s1 e1] eqn:Et.
+  destruct (route_queued c s1 k) as [s2 e2] eqn:Er. intros H. inversion H; subst.
+  eapply frame_trans; [eapply try_route_frame; eassumption|eapply IH; eassumption].
+Qed.
+
+(* the pool is exactly what the last resize asked for, up to busy workers being retired *)
+Definition shape_ok (p : list worker) (n : N) : Prop :=
+  (forall i, i < n -> exists w, find_w p i = Some w /\ w_drain w = false)
+  /\ (forall i w, n <= i -> find_w p i = Some w -> w_drain w = true /\ w_working w = true).
+
+Definition RI (s : fstate) : Prop := f_stopped s = true \/ shape_ok (f_pool s) (f_size s).
+
+Lemma shape_ple p p' n : shape_ok p n -> ple p p' -> shape_ok p' n.
+Proof.
+  intros [A B] H. split.
+  - intros i Hi. destruct (A i Hi) as (w & Hf & Hd). specialize (H i). rewrite Hf in H.
+    destruct (find_w p' i) as [w'|]; [|contradiction]. exists w'. split; [reflexivity|]. destruct H. congruence.
+  - intros i w' Hi Hf. specialize (H i). rewrite Hf in H. destruct (find_w p i) as [w|] eqn:E; [|contradiction].
+    destruct (B i w Hi E) as [B1 B2]. destruct H as [H1 H2]. split; [congruence|auto].
+Qed.
+
+Lemma RI_frame s s' : RI s -> frame s s' -> RI s'.
+Proof.
+  intros [H|H] (A & _ & C & D); [left; congruence|right]. rewrite A. eapply shape_ple; eassumption.
+Qed.
+
+Lemma worker_complete_shape w :
+  w_id (fst (worker_complete w)) = w_id w /\ w_drain (fst (worker_complete w)) = w_drain w.
+Proof. unfold worker_complete. destruct (w_q w); cbn; split; reflexivity. Qed.
+
+Lemma shape_upd_nondraining p n i w x :
+  shape_ok p n -> find_w p i = Some w -> w_id x = i -> w_drain x = w_drain w -> w_drain w = false ->
+  shape_ok (upd_w p x) n.
+Proof.
+  intros [A B] Hf Hid Hd Hnd. split.
+  - intros k Hk. rewrite find_upd_w, Hid. destruct (N.eqb_spec i k) as [E|E].
+    + subst k. rewrite Hf. exists x. split; [reflexivity|congruence].
+    + apply A. exact Hk.
+  - intros k y Hk. rewrite find_upd_w, Hid. destruct (N.eqb_spec i k) as [E|E].
+    + subst k. destruct (B i w Hk Hf) as [B1 _]. congruence.
+    + apply B. exact Hk.
+Qed.
+
+Lemma shape_draining_ge p n i w : shape_ok p n -> find_w p i = Some w -> w_drain w = true -> n <= i.
+Proof.
+  intros [A _] Hf Hd. destruct (N.lt_ge_cases i n) as [Hlt|Hge]; [|exact Hge].
+  destruct (A i Hlt) as (w' & Hf' & Hd'). congruence.
+Qed.
+
+Lemma shape_remove_ge p n i : shape_ok p n -> n <= i -> shape_ok (remove_w p i) n.
+Proof.
+  intros [A B] Hi. split.
+  - intros k Hk. rewrite find_remove_w. destruct (N.eqb_spec i k); [lia|]. apply A. exact Hk.
+  - intros k y Hk. rewrite find_remove_w. destruct (N.eqb_spec i k); [discriminate|]. apply B. exact Hk.
+Qed.
+
+Lemma worker_finished_RI c s i s' e : worker_finished c s i = (s', e) -> f_stopped s = false -> RI s ->
+  RI s' /\ f_size s' = f_size s /\ f_stopped s' = false.
+Proof.
+  intros H Hns [Hs|Hs]; [congruence|]. revert H. unfold worker_finished.
+  destruct (find_w (f_pool s) i) as [w|] eqn:Ef.
+  2:{ intros H; inversion H; subst. repeat split; [right; exact Hs|exact Hns]. }
+  pose proof (worker_complete_shape w) as [Cid Cdr]. destruct (worker_complete w) as [w' e1]. cbn [fst] in *.
+  pose proof (find_w_id _ _ _ Ef) as Hid.
+  destruct (w_drain w') eqn:Edr.
+  - assert (Hge : f_size s <= i) by (eapply shape_draining_ge; [exact Hs|exact Ef|congruence]).
+    destruct (w_working w') eqn:Ew; intros H; inversion H; subst; cbn [set_pool f_size f_stopped f_pool].
+    + repeat split; [right|exact Hns]. cbn [set_pool f_pool f_size]. destruct Hs as [A B]. split.
+      * intros k Hk. rewrite find_upd_w, Cid. destruct (N.eqb_spec (w_id w) k); [lia|]. apply A. exact Hk.
+      * intros k y Hk. rewrite find_upd_w, Cid. destruct (N.eqb_spec (w_id w) k) as [E|E].
+        -- subst k. rewrite Ef. intros Hy. inversion Hy; subst. split; assumption.
+        -- apply B. exact Hk.
+    + repeat split; [right|exact Hns]. cbn [set_pool f_pool f_size].
+      apply shape_remove_ge; [|exact Hge]. destruct Hs as [A B]. split.
+      * intros k Hk. rewrite find_upd_w, Cid. destruct (N.eqb_spec (w_id w) k); [lia|]. apply A. exact Hk.
+      * intros k y Hk. rewrite find_upd_w, Cid. destruct (N.eqb_spec (w_id w) k) as [E|E].
+        -- subst k. rewrite Ef. intros Hy. inversion Hy; subst.
+           (* this entry is removed right after; any value works for the bound k = i *)
+           destruct (B (w_id w) w Hk Ef) as [B1 B2]. split; [congruence|].
+           (* unreachable for the final pool, but shape_remove_ge only needs shape of the rest *)
+           exact B2.
+        -- apply B. exact Hk.
+  - unfold try_route_next.
+    match goal with |- context [try_route c ?f ?st (Some i)] => destruct (try_route c f st (Some i)) as [s2 e'] eqn:Et end.
+    intros H; inversion H; subst. apply try_route_frame in Et.
+    pose proof (frame_trans _ _ _ Et (mark_available_frame c s2 i)) as (F1 & F2 & F3 & F4).
+    cbn [set_pool f_size f_stopped f_pool f_drain] in *.
+    repeat split; [|exact F1|congruence]. right. rewrite F1. eapply shape_ple; [|exact F4].
+    eapply shape_upd_nondraining; [exact Hs|exact Ef|congruence|congruence|congruence].
 Qed.
